@@ -24,7 +24,7 @@ META = {
     ),
     "assumptions": [
         "executed thread payloads run in their caller's thread (C10), only adopted and service thread payloads must stay off the two loop threads",
-        "'blocking never stalls coroutine payloads' is restated in events: >= 2 heartbeats (period 10 ms) per loop while a thread payload blocks 0.6 s",
+        "'blocking never stalls coroutine payloads' is restated in events: while a thread payload blocks 0.6 s each loop's heartbeat (period 10 ms) advances at least twice and never pauses longer than 0.35 s - unless a plain reference thread ticking every 10 ms paused 0.1 s or more in the same window (starved machine); synchronous execute calls between the loops legitimately hold a loop for the ~0.1 s the executed payload takes",
     ],
     "shard_timeout": {"quick": 900, "thorough": 3600},
 }
@@ -73,6 +73,9 @@ def gen_case(rnd, spec):
                     gen["payloads"].append(kid)
                     kids.append(kid["id"])
             p = {"id": new(), "flavour": fl, "program": worker_program(rnd, adoptees=kids), "cleanup": {"kind": "none"}}
+            if not how.startswith("service"):
+                # not necessarily a coroutine function: also plain callables that run a synchronous first section themselves
+                p["callable"] = rnd.choice(["function", "function", "prefixed", "prefixed", "lambda", "wrapped", "partial", "object", "method"])
             if how == "queued":
                 p["when"] = "queued"
                 gen["payloads"].append(p)
@@ -139,6 +142,14 @@ def gen_case(rnd, spec):
                 gen["payloads"].append(small)
                 ops += [["adopt", small["id"]], ["sleep", 0.06]]
             gen["payloads"].append({"id": new("chatty"), "flavour": fl, "when": "queued", "program": ops + [["beat", 0.02, None]], "cleanup": {"kind": "none"}})
+    # the same thread payload (the very same callable) adopted a second time by coroutine payloads while its first run still blocks
+    if rnd.random() < 0.3:
+        again = {"id": new("again"), "flavour": "threading", "when": "queued", "program": [["ctx"], ["block", 0.6]], "cleanup": {"kind": "none"}}
+        gen["payloads"].append(again)
+        for fl in common.COROUTINE:
+            gen["payloads"].append({"id": new("readopter"), "flavour": fl, "when": "queued", "cleanup": {"kind": "none"},
+                                    "program": [["sleep", 0.08], ["adopt_same", again["id"]], ["beat", 0.02, None]]})
+        gen.setdefault("tags", []).append("thread_payload_adopted_again_while_running")
     # a crowd of blocking thread payloads, with coroutine payloads adopting more thread payloads meanwhile
     if rnd.random() < 0.25:
         crowd = rnd.choice([40, 70, 130])
@@ -261,6 +272,8 @@ def judge(case, run, result):
                     problems.append(("%s payload %s entered a synchronous section while %d other %s payload(s) were inside one"
                                      % (fl, e["pid"], e["entered_with"], fl), None))
             result.count("steps_%s_%s" % (role, fl))
+            if e.get("n") == -1:
+                result.count("synchronous_first_sections_of_plain_callables_checked")
         elif not sp.get("executed"):
             if e["th"] in (homes["asyncio"]["th"], homes["trio"]["th"]):
                 problems.append(("%s thread payload %s ran on the %s loop thread" % (role, e["pid"], "asyncio" if e["th"] == homes["asyncio"]["th"] else "trio"), None))
@@ -279,11 +292,21 @@ def judge(case, run, result):
             # nothing can be said about this window
             result.count("blocking_windows_skipped_machine_starved")
             continue
+        def longest_pause(events):
+            marks = [s["t"]] + [e["t"] for e in events] + [end[0]["t"]]
+            return max(b - a for a, b in zip(marks, marks[1:]))
+
+        reference = longest_pause(ticks)
         for fl in common.COROUTINE:
             beats = [e for e in run.of("beat", gen=0, pid="heart_" + fl) if s["seq"] < e["seq"] < end[0]["seq"]]
             if len(beats) < 2:
                 problems.append(("while thread payload %s blocked for %.2f s the %s heartbeat advanced only %d time(s)"
                                  % (s["pid"], end[0]["t"] - s["t"], fl, len(beats)), None))
+            elif longest_pause(beats) > 0.35 and reference < 0.1:
+                # the loop stood still for most of the blocking time although a plain thread ticking every 10 ms never paused
+                # for 0.1 s: not a starved machine, the loop was held up
+                problems.append(("while thread payload %s blocked for %.2f s the %s heartbeat (period 10 ms) paused for %.2f s; a plain reference "
+                                 "thread never paused longer than %.2f s" % (s["pid"], end[0]["t"] - s["t"], fl, longest_pause(beats), reference), None))
             else:
                 result.count("heartbeats_during_blocking", len(beats))
         result.count("blocking_thread_payloads_observed")
@@ -327,7 +350,7 @@ def run_shard(spec):
 def finish(total, tier):
     need = ["synchronous_sections_checked", "blocking_thread_payloads_observed", "heartbeats_during_blocking", "scenarios_with_foreign_loop_submitter",
             "steps_adopted_threading", "sections_that_adopt_checked", "blocking_executes_observed", "scenarios_with_crowd", "scenarios_with_no_threads",
-            "scenarios_with_parked_payloads_and_gc", "scenarios_with_shutdown_window", "payload_endings_checked"]
+            "scenarios_with_parked_payloads_and_gc", "scenarios_with_thread_payload_adopted_again_while_running", "synchronous_first_sections_of_plain_callables_checked", "scenarios_with_shutdown_window", "payload_endings_checked"]
     need += ["steps_%s_%s" % (r, f) for r in ("adopted", "service", "executed") for f in common.COROUTINE]
     for name in need:
         if not total.counters.get(name) and not total.violations:
